@@ -400,6 +400,9 @@ pub enum CEv {
     NewRequest,
     PollReady,
     PollResponse(usize),
+    /// (parked variant) the application cancels request k: send_reset(CANCEL) / drops both handles
+    Cancel(usize),
+    DropAll(usize),
     Drive,
 }
 
@@ -409,6 +412,8 @@ pub struct CReq {
     pub ss: Option<h2::SendStream<Bytes>>,
     pub result: Option<Result<u16, String>>,
     pub created_after_goaway: bool,
+    /// the application itself cancelled the request (reset or dropped its handles): what its handles report is its own doing
+    pub cancelled: bool,
 }
 
 pub struct CWorld {
@@ -424,10 +429,16 @@ pub struct CWorld {
 pub struct ClientGoaway {
     pub events: Vec<CEv>,
     pub name: &'static str,
+    /// the peer allows one concurrent stream: the second request is parked when the GOAWAY arrives, and the application may
+    /// cancel it before or after
+    pub parked: bool,
 }
 
 impl ClientGoaway {
     pub fn new(name: &'static str, quick: bool) -> ClientGoaway {
+        Self::new_variant(name, quick, false)
+    }
+    pub fn new_variant(name: &'static str, quick: bool, parked: bool) -> ClientGoaway {
         let mut ev = vec![];
         let menu: Vec<(u32, u32, bool)> = if quick { vec![(1, 0, false), (3, 2, true), (0, 0xdead_beef, true)] } else { vec![(0, 0, false), (1, 0, false), (1, 2, true), (3, 0, true), (5, 0xdead_beef, true), (0x7fff_ffff, 0, false), (0, 0xdead_beef, true)] };
         for (l, c, d) in menu {
@@ -437,8 +448,14 @@ impl ClientGoaway {
             ev.push(CEv::PeerRespondEos(k));
             ev.push(CEv::PollResponse(k));
         }
+        if parked {
+            for k in 0..2 {
+                ev.push(CEv::Cancel(k));
+                ev.push(CEv::DropAll(k));
+            }
+        }
         ev.extend([CEv::PeerEof, CEv::NewRequest, CEv::PollReady, CEv::Drive]);
-        ClientGoaway { events: ev, name }
+        ClientGoaway { events: ev, name, parked }
     }
 }
 
@@ -452,7 +469,8 @@ impl Model for ClientGoaway {
         self.name
     }
     fn cfg(&self) -> T2Cfg {
-        T2Cfg { role: Side::Client, peer_settings: vec![], client: Some(client::Builder::new()), server: None, policy: IoPolicy::default() }
+        let peer_settings = if self.parked { vec![(wf::setting::MAX_CONCURRENT_STREAMS, 1)] } else { vec![] };
+        T2Cfg { role: Side::Client, peer_settings, client: Some(client::Builder::new()), server: None, policy: IoPolicy::default() }
     }
     fn init(&self, t: &mut T2) -> CWorld {
         let mut sr = t.send_request.take().unwrap();
@@ -460,10 +478,17 @@ impl Model for ClientGoaway {
         let wk = waker_of(&f);
         let mut cx = Context::from_waker(&wk);
         let mut reqs = vec![];
+        if self.parked {
+            // the peer's limit of 1 is known before the first request
+            t.drive(50);
+        }
         for _ in 0..2 {
+            if self.parked {
+                t.drive(50);
+            }
             let _ = sr.poll_ready(&mut cx);
             let (rf, ss) = sr.send_request(simple_request("/g", false), true).expect("send_request");
-            reqs.push(CReq { sid: rf.stream_id().as_u32(), rf: Some(rf), ss: Some(ss), result: None, created_after_goaway: false });
+            reqs.push(CReq { sid: rf.stream_id().as_u32(), rf: Some(rf), ss: Some(ss), result: None, created_after_goaway: false, cancelled: false });
         }
         t.drive(50);
         CWorld { sr: Some(sr), reqs, goaways: vec![], processed: false, new_request_ok_after_goaway: false, ready_ok_after_goaway: false, frames_at_processing: 0 }
@@ -486,6 +511,8 @@ impl Model for ClientGoaway {
             CEv::NewRequest => w.sr.is_some() && w.reqs.len() < 3,
             CEv::PollReady => w.sr.is_some(),
             CEv::PollResponse(k) => w.reqs.get(*k).map(|r| r.rf.is_some()).unwrap_or(false),
+            CEv::Cancel(k) => w.reqs.get(*k).map(|r| r.ss.is_some()).unwrap_or(false),
+            CEv::DropAll(k) => w.reqs.get(*k).map(|r| r.ss.is_some() || r.rf.is_some()).unwrap_or(false),
             CEv::Drive => t.conn_alive(),
         }
     }
@@ -509,7 +536,7 @@ impl Model for ClientGoaway {
                         if w.processed {
                             w.new_request_ok_after_goaway = true;
                         }
-                        w.reqs.push(CReq { sid: rf.stream_id().as_u32(), rf: Some(rf), ss: Some(ss), result: None, created_after_goaway: w.processed });
+                        w.reqs.push(CReq { sid: rf.stream_id().as_u32(), rf: Some(rf), ss: Some(ss), result: None, created_after_goaway: w.processed, cancelled: false });
                     }
                 }
             }
@@ -536,6 +563,20 @@ impl Model for ClientGoaway {
                     _ => {}
                 }
             }
+            CEv::Cancel(k) => {
+                let r = &mut w.reqs[k];
+                if let Some(mut ss) = r.ss.take() {
+                    guarded(&mut panics, "send_reset", || ss.send_reset(h2::Reason::CANCEL));
+                    safe_drop(&mut panics, "SendStream", Some(ss));
+                }
+                r.cancelled = true;
+            }
+            CEv::DropAll(k) => {
+                let r = &mut w.reqs[k];
+                r.cancelled = true;
+                safe_drop(&mut panics, "SendStream", r.ss.take());
+                safe_drop(&mut panics, "ResponseFuture", r.rf.take());
+            }
             CEv::Drive => {
                 t.drive(200);
                 if !w.goaways.is_empty() && !w.processed {
@@ -558,6 +599,20 @@ impl Model for ClientGoaway {
             w.ready_ok_after_goaway = false;
         }
         if w.processed {
+            // no stream is opened on the wire after the GOAWAY was processed, whenever its request was made: a request
+            // parked behind the concurrency limit stays unsent (also one the application has cancelled meanwhile)
+            let l = w.goaways.first().map(|g| g.0).unwrap_or(0x7fff_ffff);
+            let fr = t.subject_frames();
+            for (i, f) in fr.iter().enumerate() {
+                if i >= w.frames_at_processing {
+                    if let Ok(Parsed::Headers { sid, .. }) = &f.parsed {
+                        let first = !fr[..i].iter().any(|g| g.raw.stream() == *sid && g.raw.ty == wf::ty::HEADERS);
+                        if first && *sid > l {
+                            v.push(("C15.new-stream-after-goaway-received".into(), "wire-parked".into(), format!("stream {} was opened on the wire after the peer's GOAWAY(last={}) had been processed", sid, l)));
+                        }
+                    }
+                }
+            }
             // no stream created after the GOAWAY was processed appears on the wire
             for r in w.reqs.iter().filter(|r| r.created_after_goaway) {
                 if t.subject_frames().iter().any(|f| matches!(&f.parsed, Ok(Parsed::Headers { sid, .. }) if *sid == r.sid)) {
@@ -569,7 +624,7 @@ impl Model for ClientGoaway {
         if let Some(&(l, _, _)) = w.goaways.last() {
             for r in &w.reqs {
                 match &r.result {
-                    Some(Err(txt)) if w.processed && r.sid > l && !r.created_after_goaway => {
+                    Some(Err(txt)) if w.processed && r.sid > l && !r.created_after_goaway && !r.cancelled => {
                         // must carry the reason and debug data of one of the peer's GOAWAYs that cut this stream off,
                         // origin remote, kind goaway
                         let head = txt.split('|').next().unwrap_or("");
@@ -598,21 +653,27 @@ impl Model for ClientGoaway {
             return v;
         }
         t.drive(300);
-        w.processed = true;
+        if !w.processed {
+            w.processed = true;
+            w.frames_at_processing = t.subject_frames().len();
+        }
         // streams at or below the last-stream-id run to completion, the others fail with the peer's reason
         let f = Flag::new(false);
         let wk = waker_of(&f);
         let mut cx = Context::from_waker(&wk);
         let eof = t.sh.lock().unwrap().pipes[t.role.other().idx()].closed;
-        for k in 0..w.reqs.len() {
-            let sid = w.reqs[k].sid;
-            let on_wire = t.subject_frames().iter().any(|f| matches!(&f.parsed, Ok(Parsed::Headers { sid: s, .. }) if *s == sid));
-            let answered = t.mon.frames.iter().any(|f| f.sender != t.role && f.raw.stream() == sid);
-            if sid <= l && on_wire && !answered && t.conn_alive() && !eof {
-                t.peer_response(sid, "200", true);
+        // (a parked request at or below the cut-off may reach the wire only once an earlier stream has finished: repeat)
+        for _round in 0..3 {
+            for k in 0..w.reqs.len() {
+                let sid = w.reqs[k].sid;
+                let on_wire = t.subject_frames().iter().any(|f| matches!(&f.parsed, Ok(Parsed::Headers { sid: s, .. }) if *s == sid));
+                let answered = t.mon.frames.iter().any(|f| f.sender != t.role && f.raw.stream() == sid);
+                if sid <= l && on_wire && !answered && t.conn_alive() && !eof && t.rst_sent(sid).is_empty() {
+                    t.peer_response(sid, "200", true);
+                }
             }
+            t.drive(300);
         }
-        t.drive(300);
         for r in w.reqs.iter_mut() {
             if let Some(rf) = r.rf.as_mut() {
                 match guarded(&mut panics, "poll response", || Pin::new(rf).poll(&mut cx)) {
@@ -629,7 +690,7 @@ impl Model for ClientGoaway {
         }
         v.extend(self.invariant(t, w));
         for r in &w.reqs {
-            if r.created_after_goaway {
+            if r.created_after_goaway || r.cancelled {
                 continue;
             }
             let answered = t.mon.frames.iter().any(|f| f.sender != t.role && f.raw.stream() == r.sid);
@@ -830,7 +891,9 @@ fn run_x2(ctx: &Ctx) -> Outcome {
     let r1 = search(ctx, &m1, "C15", maxd, budget * 0.45, true);
     let r2 = search(ctx, &m2, "C15", maxd, budget * 0.8, true);
     let r3 = search(ctx, &m3, "C15", maxd, budget * 1.1, true);
-    fill_outcome(&mut out, &[(m1.name, &r1), (m2.name, &r2), (m3.name, &r3)]);
+    let m4 = ClientGoaway::new_variant(if quick { "client-goaway-parked-q" } else { "client-goaway-parked-t" }, quick, true);
+    let r4 = search(ctx, &m4, "C15", maxd, budget * 1.3, true);
+    fill_outcome(&mut out, &[(m1.name, &r1), (m2.name, &r2), (m3.name, &r3), (m4.name, &r4)]);
     out.set("exhaustive", json!(false));
     out.set("alphabet", json!({"server": m1.events.iter().map(|e| format!("{:?}", e)).collect::<Vec<_>>(), "client": m2.events.iter().map(|e| format!("{:?}", e)).collect::<Vec<_>>()}));
     out.set("rule", json!("X2 on T2, both roles. Real server with two accepted streams: graceful_shutdown, abrupt_shutdown(code), respond, push_request, drop handles; peer opens new streams racing the GOAWAY, acknowledges the shutdown PING early / late, ends its requests, sends its own GOAWAY (last 0 / 1 / 3 / 2^31-1, codes 0 / 2). Invariants: emitted last-stream-ids never increase and are never below a stream already returned by accept(); after GOAWAY(L) streams above L are neither surfaced nor answered; push_request fails once the peer's GOAWAY has been processed. Epilogue: graceful shutdown = GOAWAY(2^31-1), PING, after its ACK GOAWAY(last processed), accepted streams answered, transport shut down, Ok(()). Real client with two requests in flight: peer GOAWAY (last 0 / 1 / 3 / 5 / 2^31-1, codes 0 / 2 / 0xdeadbeef, with / without debug data, up to two, never increasing), responses, EOF, new requests, poll_ready. Invariants: no send_request / poll_ready success and no new HEADERS after the GOAWAY was processed; streams above L fail with origin remote / kind GOAWAY / the peer's code and debug data. Epilogue: streams <= L complete, nothing stays pending, the connection result carries the peer's code. T1 half (harness t1-scenarios): real client <-> real server, the server application calls graceful_shutdown / abrupt_shutdown(code) after its n-th accept while further requests race the GOAWAY (also parked behind the concurrency limit, with 7-octet windows, late readers); every execution with <= 2 (thorough 3) deviations in schedule, partial writes / reads at structural offsets and spurious Pendings; the same rules judged from the wire and both API logs"));
@@ -839,6 +902,7 @@ fn run_x2(ctx: &Ctx) -> Outcome {
     vs.merge(r1.agg.vios);
     vs.merge(r2.agg.vios);
     vs.merge(r3.agg.vios);
+    vs.merge(r4.agg.vios);
     out.violations = vs.into_vec();
     out.guard_nonzero("goaways sent", out.coverage.get("mechanism_counters").and_then(|m| m.get("goaways_sent")).and_then(|v| v.as_u64()).unwrap_or(0));
     out.guard_nonzero("streams failed by peer goaway", out.coverage.get("mechanism_counters").and_then(|m| m.get("streams_failed")).and_then(|v| v.as_u64()).unwrap_or(0));
@@ -871,6 +935,10 @@ pub fn replay(v: &serde_json::Value) -> Option<bool> {
         let n2: &'static str = if quick { "client-goaway-q" } else { "client-goaway-t" };
         if h == format!("x2.{}", n1) {
             return Some(replay_model(&ServerShutdown::new(n1, quick), "C15", v));
+        }
+        let n4: &'static str = if quick { "client-goaway-parked-q" } else { "client-goaway-parked-t" };
+        if h == format!("x2.{}", n4) {
+            return Some(replay_model(&ClientGoaway::new_variant(n4, quick, true), "C15", v));
         }
         let n3: &'static str = if quick { "server-shutdown-blocked-q" } else { "server-shutdown-blocked-t" };
         if h == format!("x2.{}", n3) {
